@@ -74,7 +74,10 @@ def gen_c13(r, count, tier):
     out = []
     for q in range(count):
         n = r.choice([2, 2, 3, 3, 4, 5, 6])
-        shapes = ["left", "iter"] + (["cat:%d" % k for k in range(2, n - 1)] if n >= 4 else [])
+        # cate / pushe: the pipeline-level settings are made on an operand BEFORE it is composed further (input and
+        # stderr sink on the left operand, output on the right one) -- composing must carry them along
+        shapes = ["left", "iter"] + ((["cat:%d" % k for k in range(2, n - 1)] + ["cate:%d" % k for k in range(2, n - 1)] * 2) if n >= 4 else []) + (
+            ["pushe"] if n >= 3 else [])
         term = r.choice(["popen", "popen", "join", "capture", "capture", "communicate"])
         size = r.choice([0, 5, 300, 70000, 300000]) if tier == "thorough" or q % 3 == 0 else r.choice([0, 5, 300])
         data = X.rand_bytes(r, size, 0, 255)
@@ -145,6 +148,19 @@ def gen_c14(r, count, tier):
         # every started command copies its input to its output: it ends when its input ends or its reader is gone
         t["stub"] = [["streamcat <T%d>" % i, "exit 0"] for i in range(n)]
         out.append(t)
+    # an unbounded producer in front: it ends only when the reader of its output is gone -- which it is once the
+    # command that cannot be started has dropped the File it was handed (nobody else may hold that pipe's read end)
+    q = len(out)
+    for n in (2, 3, 4):
+        for k in range(1, n):
+            for term in (("join", "popen", "capture", "stream_stdout") if tier != "quick" else (("join", "capture") if (n + k) % 2 else ("popen", "stream_stdout"))):
+                for det in (False, True):
+                    t = {"id": "c14-%d" % q, "kind": "pipeline", "n": n, "failk": k, "term": term, "pstdin": "none", "detached": det,
+                         "shape": "left", "pstdout": "none" if term in ("capture", "stream_stdout") else "null",
+                         "after": "drop", "stderr_to": False, "watchdog": 12, "producer": True}
+                    t["stub"] = [["writeforever 1", "exit 0"]] + [["streamcat <T%d>" % i, "exit 0"] for i in range(1, n)]
+                    out.append(t)
+                    q += 1
     return out
 
 
@@ -633,6 +649,20 @@ def judge_c12(chk, s, mline):
         bad.append("after the handle was dropped %d zombie(s) and %d running child(ren) remain" % z)
     if det and term in ("popen", "stream_stdout", "stream_stderr", "stream_stdin") and dropped is not None and int(dropped) > 1500:
         bad.append("dropping a detached handle blocked for %s ms" % dropped)
+    if det and term in ("popen", "stream_stdout", "stream_stderr", "stream_stdin"):
+        # ... and never reaps: no status query between the drop and the end, and a child that had exited before the
+        # drop is still there for the caller to collect
+        plog = parent_log(s)
+        di = next((i for i, l in enumerate(plog) if l.startswith("mark drop")), None)
+        if di is not None:
+            w = [l for l in plog[di:] if l.startswith("waitpid ")]
+            if w:
+                bad.append("dropping a detached handle queried / reaped the child: %s" % w[0])
+        if t.get("after", "").startswith("sleep_drop") and t["child"] == ["exit"]:
+            zp = [int(x) for x in (out_field(s, "zombie_pids") or "").split(",") if x]
+            fk = forks(s)
+            if fk and fk[0] not in zp:
+                bad.append("the detached child, which had exited before the handle was dropped, is no longer there to be collected (the drop reaped it)")
     # order of closes and waits of the drop
     if t["kind"] == "pipeline":
         head, launches = parse_model(mline)
@@ -863,6 +893,82 @@ def c09_real(chk, tier, explicit=None):
     chk.cov["evaluations"] = chk.cov.get("evaluations", 0) + len(scns)
     chk.cov["traces_validated_against_impl"] = chk.cov.get("traces_validated_against_impl", 0) + n_ok - len(ties)
     chk.cov["real_process_statuses"] = len(scns)
+
+
+def c10_real(chk, tier, explicit=None):
+    """C10 on real processes: every signalling call on a live child issues exactly one kill(2) whose target is the
+    child's process id -- a positive pid, never a process group or another process -- with the requested signal,
+    whatever the launch options (fresh process group, detached); after termination was observed, none"""
+    if explicit is not None:
+        tpls = explicit
+    else:
+        tpls = []
+        q = 0
+        seqs = ["term", "kill", "sig10", "sig0", "sig18", "sig10,sig12,term", "sig0,poll,sig10", "term,wait,term,kill,sig10", "kill,wait,sig15", "sig19,sig18,term"]
+        if tier != "quick":
+            seqs += ["sig%d" % g for g in (1, 2, 3, 13, 14, 15, 17, 23, 28, 34, 64)] + ["sig0,poll,sig18,poll,kill,wait,kill"]
+        for setpgid in (False, True):
+            for det in (False, True):
+                for sq in seqs:
+                    tpls.append({"id": "c10r-%d" % q, "setpgid": setpgid, "detached": det, "seq": sq})
+                    q += 1
+    scns = []
+    for t in tpls:
+        spec = ["kind create", "argv STUB,%s" % e2.hexs("x"), "stdin none", "stdout none", "stderr none"]
+        if t["setpgid"]:
+            spec.append("setpgid 1")
+        if t["detached"]:
+            spec.append("detached 1")
+        # the child ignores the catchable signals used here and sleeps: it stays alive until it is told otherwise
+        spec += ["stubcfg hold", "after signals:%s" % t["seq"], "log_after 1", "settle_ms 30"]
+        scns.append({"id": t["id"], "tpl": t, "spec": spec, "files": {}, "collect": [], "timeout": 15})
+    e2.run_scenarios(scns, "C10real")
+    n_ok = 0
+    for s in scns:
+        t = s["tpl"]
+        what = "%s setpgid=%s detached=%s calls=%s" % (t["id"], t["setpgid"], t["detached"], t["seq"])
+        if s.get("timed_out") or s.get("rc") != 0:
+            chk.violation("C10: the scenario with a real child did not complete [%s] %s" % (what, s.get("stderr", "")[-200:].replace("\n", " ")), "real\n" + tpl_to_json(t))
+            continue
+        fk = forks(s)
+        if not fk:
+            chk.violation("C10: no child was started [%s]" % what, "real\n" + tpl_to_json(t))
+            continue
+        pid = fk[0]
+        plog = parent_log(s)
+        end = next((i for i, l in enumerate(plog) if l.startswith("mark cleanup")), len(plog))
+        kills = []
+        for ln in plog[:end]:
+            p = ln.split()
+            if p[0] == "kill":
+                kills.append((int(p[1]), int(p[2])))
+        want = []
+        observed = False
+        sigdies = {15: True, 9: True, 10: True, 12: True, 1: True, 2: True, 3: True, 13: True, 14: True, 34: True, 64: True}
+        dead = False
+        for op in t["seq"].split(","):
+            if op in ("poll", "wait"):
+                if dead or op == "wait":
+                    observed = True
+                continue
+            sig = 15 if op == "term" else 9 if op == "kill" else int(op[3:])
+            if not observed:
+                want.append((pid, sig))
+                if sig in sigdies:
+                    dead = True
+        bad = []
+        # (the sequences poll only while the child is alive and wait only after a fatal signal: no race in what is expected)
+        if kills != want:
+            bad.append("kill(2) calls %s, expected %s (target = the child's pid %d, one call per signalling call while the child is not known to have terminated)" % (kills, want, pid))
+        if any(k[0] != pid for k in kills):
+            bad.append("a signal was sent to %s, which is not the child's process id %d" % ([k[0] for k in kills if k[0] != pid], pid))
+        if bad:
+            chk.violation("C10: %s [%s]" % ("; ".join(bad), what), "real\n" + tpl_to_json(t))
+        else:
+            n_ok += 1
+    chk.cov["evaluations"] = chk.cov.get("evaluations", 0) + len(scns)
+    chk.cov["traces_validated_against_impl"] = chk.cov.get("traces_validated_against_impl", 0) + n_ok
+    chk.cov["real_process_signalling"] = len(scns)
 
 
 def gen_c01_real(tier):
